@@ -307,7 +307,7 @@ CHECKS['C13'] = dict(
     title='thread-safe option makes concurrent use linearizable', level='exploration',
     jobs=c13_jobs, evidence=c13_evidence,
     rule='controlled mode: small client programs (2 threads x 2-3 ops, 3 threads x 2 ops, directed ones such as addlast || popfirst;popfirst, toarray || addlast;addlast, put || remove;get || get;remove, locked walk || put;remove, find_min/find_max/find_nearest || remove;put, getat;addat || popat;popat) '
-         'over put/get/remove/clear/locked-walk (+ find_min, find_max, find_nearest with the copy flag on the tree; addat/getat/popat at positions 0-1 on list and vector; one stand-alone getnext(copy) on a fresh cursor without the caller holding the lock on list tables (named), list and vector; an eighth container kind, the list table without the unique option, with getmulti and unnamed first-entry reads, modelled as an ordered multimap) '
+         'over put/get/remove/clear/locked-walk (+ find_min, find_max, find_nearest with the copy flag on the tree; addat/getat/popat/removeat (+ setat on the vector) at positions 0-1 and reverse() on list and vector; one stand-alone getnext(copy) on a fresh cursor without the caller holding the lock on list tables (named), list and vector; an eighth container kind, the list table without the unique option, with getmulti and unnamed first-entry reads, modelled as an ordered multimap) '
          'on tree, hash, unique list table, list, queue, stack, vector created thread-safe; each program is run under every schedule (depth-first over the choices at outermost lock acquire / after release / allocator calls / usleep; '
          'a worker waiting for an owned mutex is disabled) when that fits the budget, else under budget DFS + budget random schedules; every history (invocation/response stamps, results, final contents) is searched for a linearization (Wing-Gong, memoised). '
          'stress mode: 4-8 truly concurrent threads with random delays at the same points, unique values; maps checked per key (P-compositionality), sequences by conservation / no-duplicate / not-from-the-future / per-producer FIFO rules (copying gets included), ordered lookups of the tree by a stored-by-an-earlier-put rule; the same workload on a TSan build. '
@@ -334,11 +334,11 @@ CHECKS['C16'] = dict(
 
 CHECKS['C18'] = dict(
     title='hash functions equal their published algorithms', level='exploration',
-    jobs=lambda tier, seed: [Job('h_hash', 'asan', extra_srcs=REFS_HASH, args=(['--seeds', '20', '--big', '512'] if tier == 'thorough' else ['--seeds', '1', '--big', '64']))],
+    jobs=lambda tier, seed: [Job('h_hash', 'asan', extra_srcs=REFS_HASH, args=(['--seeds', '20', '--big', '512', '--huge', '1'] if tier == 'thorough' else ['--seeds', '1', '--big', '64']))],
     rule='evaluation = one (length, alignment, content class) cell: the bytes are placed so that they end exactly at the end of their heap block with the slack in front ASan-poisoned, hashed with qhashmd5, qhashmurmur3_32, '
          'qhashmurmur3_128, qhashfnv1_32, qhashfnv1_64 (result buffers at arbitrary alignment) and compared with independent byte-wise references; then hashed again at another address/alignment with different bytes behind the buffer (results must agree). '
          'Cell grid: every length 1..600 x 8 alignments x {random, all-zero, all-0xff, embedded NULs, high-bit}, complete in every run; plus random sizes up to 1 MiB and qhashmd5_file over files of 0/1/32767/32768/32769/102400 bytes with whole/to-end/inner/out-of-range (offset, length) requests. '
-         'distinct = distinct cells + file requests.',
+         'thorough tier only: MD5 of one buffer of 2^32+5 bytes (a length that does not fit 32 bits). distinct = distinct cells + file requests.',
     exhaustive=True,
     require=['cells', 'large_sizes', 'file_ranges_in_range', 'file_ranges_out_of_range'],
     assumptions=['references in refs/ref_hash.c written from RFC 1321 / MurmurHash3 / FNV-1 descriptions, validated at start-up against published vectors',
@@ -480,14 +480,13 @@ CHECKS['C17'] = dict(
     title='decoders and parsers memory-safe and terminating on arbitrary input', level='exploration',
     pre=c17_pre, jobs=c17_jobs, post=c17_post,
     rule='evaluation = one call of qurl_decode / qbase64_decode / qhex_decode / qparse_queries / qconfig_parse_str / qconfig_parse_file / qaconf parse on an input in an exactly-sized heap buffer (file parsers: memfd or scratch file) '
-         'under ASan+UBSan with a 2 s CPU budget, allocation-count budget (20000; INI parser 4000+|input|/4) and live-bytes budget 64*|input|+64 MiB; in-place decoders additionally: returned length <= input length and NUL at that length. '
+         'under ASan+UBSan with a 2 s CPU budget, allocation-count budget (20000; INI parser 4000+|input|/4) and live-bytes budget 64*|input|+64 MiB+|input|^2 (replacement buffers are sized for the worst case, quadratic in the input); in-place decoders additionally: returned length <= input length and NUL at that length. '
          'Inputs: (a) every string up to length L (quick 5, thorough 7; hex L+1, INI file form L-1) over the significant bytes of each format; (b) generated INI / Apache-style documents (refs/gen_conf.py) and random decoder inputs, mutated: truncate, duplicate, delete, bit flips, '
-         'inserted quotes/brackets/escapes, trailing backslash, 4095/4096/9000-byte lines, self- and mutually-referential ${..}, hostile @INCLUDE (missing, empty, over-long, and blank-padded lines of 3000-6000 bytes, concentrated on 4078..4101, that name an existing file), 200-20000 unclosed section tags in a row (Apache-style documents). ${!cmd} is neutralised by a popen interposer. distinct = distinct inputs.',
+         'inserted quotes/brackets/escapes, trailing backslash, 4095/4096/9000-byte lines, self- and mutually-referential ${..}, hostile @INCLUDE (missing, empty, over-long, and blank-padded lines of 3000-6000 bytes, concentrated on 4078..4101, that name an existing file), 200-20000 unclosed section tags in a row (Apache-style documents), an INI file that includes itself. ${!cmd} is neutralised by a popen interposer. distinct = distinct inputs.',
     require=['inputs:qurl_decode', 'inputs:qbase64_decode', 'inputs:qhex_decode', 'inputs:qparse_queries', 'inputs:qconfig_parse_str', 'inputs:qconfig_parse_file', 'inputs:qaconf_parse',
-             'mutated_documents', 'long_include_lines_naming_an_existing_file', 'deeply_nested_section_documents', 'branch:url_escape_at_end', 'branch:hex_odd_length', 'branch:apache_unclosed_quote', 'branch:apache_unclosed_section', 'branch:ini_cyclic_reference', 'branch:ini_include',
+             'mutated_documents', 'long_include_lines_naming_an_existing_file', 'deeply_nested_section_documents', 'self_including_documents', 'branch:url_escape_at_end', 'branch:hex_odd_length', 'branch:apache_unclosed_quote', 'branch:apache_unclosed_section', 'branch:ini_cyclic_reference', 'branch:ini_include',
              'results_delivered', 'errors_reported'],
     assumptions=['gcc 12 ASan/UBSan; uninitialised reads are only visible to the valgrind job of the thorough tier',
-                 '@INCLUDE cycles are not generated (the statement lists recursive ${variables}, not recursive files)',
                  'a hang is keyed expansion-cycle iff an independent port of the documented ${..} rewriting semantics with round/size limits does not reach a fixpoint on that input'])
 
 # --------------------------------------------------------------------------- manifest texts
